@@ -74,7 +74,9 @@ First(s0, ev, ln) ==
       tm    == TmOf(cf.timers)
       src   == ToSet(cf.src)
       woke  == cf.wake # "none" /\ HasAct(ev, cf.wake)
-      base  == [to |-> ToOf(cf), tm |-> tm, src |-> src, wk |-> Inf, wake |-> "none"]
+      \* when the slow before_sleep hook (source life_slow) was over, 0 = there was none
+      bs    == IF "bs_end_us" \in DOMAIN ev THEN ev.bs_end_us ELSE 0
+      base  == [to |-> ToOf(cf), tm |-> tm, src |-> src, wk |-> Inf, wake |-> "none", bs |-> bs]
       \* the wake-up as it really happened: not before b_us (taken just before the call), done by a_us
       qlo   == IF woke THEN [base EXCEPT !.wk = ActOf(ev, cf.wake).b_us, !.wake = cf.wake] ELSE base
       qhi   == IF woke THEN [base EXCEPT !.wk = ActOf(ev, cf.wake).a_us, !.wake = cf.wake] ELSE base
@@ -94,7 +96,7 @@ First(s0, ev, ln) ==
                 IF SpecWait(base) = Inf \/ SpecWait(base) > LB THEN "returned_before_wakeup" ELSE "early_return")
         \cup If(UB # Inf /\ ev.end_us > UB + ev.start_us + Slack, "oversleep")
         \cup If(UB # Inf /\ ev.end_us > UB + ev.start_us + Tight /\ ev.end_us <= UB + ev.start_us + Slack, "oversleep_tight")
-        \cup If(cf.to_us = 0 /\ ev.end_us - ev.start_us > Slack, "zero_timeout_blocked")
+        \cup If(cf.to_us = 0 /\ ev.end_us - Max2(ev.start_us, bs) > Slack, "zero_timeout_blocked")
         \cup If(HasAct(ev, "guard"), "blocked_until_guard")
         \cup If(~(SpecFire(qlo) \subseteq F), "limit_timer_not_fired")
         \cup FiredClauses(ev.fired, tm, "")
@@ -118,7 +120,7 @@ First(s0, ev, ln) ==
 Second(s0, ev, ln) ==
   LET cf    == s0.cf
       tm    == TmOf(cf.timers)
-      base  == [to |-> ToOf(cf), tm |-> tm, src |-> ToSet(cf.src), wk |-> Inf, wake |-> "none"]
+      base  == [to |-> ToOf(cf), tm |-> tm, src |-> ToSet(cf.src), wk |-> Inf, wake |-> "none", bs |-> 0]
       q2    == SpecAfter(base, ev.start_us, s0.fired, cf.s2_us)      \* times relative to the start of this call
       W2    == SpecWait(q2)
       el    == ev.end_us - ev.start_us
